@@ -524,6 +524,10 @@ func VerifC01_GetMany() {
 	if cnt == 0 {
 		req = req[1:2]
 	}
+	if vrt.Param("REQ") == 1 && cnt >= 2 {
+		// a single request for the last child: its position exceeds the number of requested paths
+		req = req[:1]
+	}
 	var err error
 	if vrt.Param("VIA") == 0 {
 		err = node.GetMany(req, opts)
@@ -622,4 +626,99 @@ func VerifC01_Foreach() {
 			}
 		}
 	}
+}
+
+func init() {
+	vrt.Register("VerifC01_TypedBinKey", VerifC01_TypedBinKey)
+	vrt.Register("VerifC01_ForeachContainers", VerifC01_ForeachContainers)
+}
+
+// VerifC01_TypedBinKey: the typed Value.GetByPath with a raw-bytes key on maps whose key and value types
+// differ (map<double,string>, map<i16,string>): the result is the value element (type and span), as the
+// untyped lookup returns it.
+func VerifC01_TypedBinKey() {
+	kind := vrt.Param("KIND") // 0 map<double,string>, 1 map<i16,string>
+	var kt byte
+	var ktd *thrift.TypeDescriptor
+	if kind == 0 {
+		kt, ktd = vrt.TDOUBLE, thrift.VerifBasic(thrift.DOUBLE)
+	} else {
+		kt, ktd = vrt.TI16, thrift.VerifBasic(thrift.I16)
+	}
+	st := thrift.VerifStruct("S", thrift.Options{}, thrift.VField{ID: 1, Name: "m", Type: thrift.VerifMap(ktd, thrift.VerifBasic(thrift.STRING)), Req: 2})
+	var keys [][]byte
+	var b []byte
+	b = vrt.PutMapHdr(vrt.PutField(b, vrt.TMAP, 1), kt, vrt.TSTRING, 2)
+	for i := 0; i < 2; i++ {
+		var k []byte
+		if kind == 0 {
+			k = vrt.PutBE64(nil, int64(vrt.U64()))
+		} else {
+			k = vrt.PutBE16(nil, int(int16(vrt.U16())))
+		}
+		keys = append(keys, k)
+		b = append(b, k...)
+		b = vrt.PutString(b, []byte{vrt.U8(), byte('0' + i)})
+	}
+	b = append(b, 0)
+	vrt.Assume(!vrt.BytesEq(keys[0], 0, len(keys[0]), keys[1], 0, len(keys[1])))
+	root, ok := vrt.TChildren(b, vrt.TSTRUCT, 3)
+	vrt.Assume(ok && len(root) == 1)
+	ents, ok2 := vrt.TChildren(b[root[0].Start:root[0].End], vrt.TMAP, 3)
+	vrt.Assume(ok2 && len(ents) == 2)
+	v := NewValue(st, b)
+	for i := 0; i < 2; i++ {
+		got := v.GetByPath(NewPathFieldId(1), NewPathBinKey(keys[i]))
+		vrt.Reach("looked-up")
+		vrt.Assert(!got.IsError(), "C01.typed-binkey.noerror")
+		if got.IsError() {
+			continue
+		}
+		vrt.Assert(got.Type() == thrift.STRING, "C01.typed-binkey.value-type")
+		vrt.Assert(vrt.SameSpan(got.Raw(), b, root[0].Start+ents[i].Start, root[0].Start+ents[i].End), "C01.typed-binkey.value-span")
+		vrt.Assert(got.Desc != nil && got.Desc.Type() == thrift.STRING, "C01.typed-binkey.value-descriptor")
+	}
+}
+
+// VerifC01_ForeachContainers: typed Foreach over a list<string> / set<string> / map<string,i32> field visits
+// every element once, in wire order, with the reference element.
+func VerifC01_ForeachContainers() {
+	kind := vrt.Param("KIND") // 0 list, 1 set, 2 map
+	cnt := vrt.Param("CNT")
+	var ft *thrift.TypeDescriptor
+	var t byte
+	switch kind {
+	case 0:
+		ft, t = thrift.VerifList(thrift.VerifBasic(thrift.STRING)), vrt.TLIST
+	case 1:
+		ft, t = thrift.VerifSet(thrift.VerifBasic(thrift.STRING)), vrt.TSET
+	default:
+		ft, t = thrift.VerifMap(thrift.VerifBasic(thrift.STRING), thrift.VerifBasic(thrift.I32)), vrt.TMAP
+	}
+	var b []byte
+	if kind == 2 {
+		b = vrt.PutMapHdr(b, vrt.TSTRING, vrt.TI32, cnt)
+	} else {
+		b = vrt.PutListHdr(b, vrt.TSTRING, cnt)
+	}
+	for i := 0; i < cnt; i++ {
+		b = vrt.PutString(b, []byte{vrt.U8(), byte('a' + i)})
+		if kind == 2 {
+			b = vrt.PutBE32(b, int(int32(vrt.U32())))
+		}
+	}
+	kids, ok := vrt.TChildren(b, t, 3)
+	vrt.Assume(ok && len(kids) == cnt)
+	v := NewValue(ft, b)
+	n := 0
+	err := v.Foreach(func(p Path, e Value) bool {
+		if n < cnt {
+			verifFound(e.Node, b, kids[n], "C01.foreach-container.element")
+		}
+		n++
+		return true
+	}, &Options{})
+	vrt.Assert(err == nil, "C01.foreach-container.noerror")
+	vrt.Reach("iterated")
+	vrt.Assert(n == cnt, "C01.foreach-container.visits-every-element")
 }
